@@ -89,7 +89,9 @@ def seq_len(x):
 
 
 def same(a, b):
-    return a is b or (isinstance(a, OpaqueToken) and a == b)
+    import dataclasses
+
+    return a is b or ((isinstance(a, OpaqueToken) or dataclasses.is_dataclass(a)) and a == b)
 
 
 # ---------------------------------------------------------------------------- shapes
@@ -151,6 +153,48 @@ def IntRange(lo, hi):
 
 def Enum(qual):
     return Shape("enum", qual)
+
+
+def Instance(qual, **k):
+    return Shape("instance", qual, **k)
+
+
+def MapOf(k, v):
+    return Shape("map", k, v)
+
+
+def SetOf(k):
+    return Shape("pset", k)
+
+
+def map_has(m, k):
+    return k in m
+
+
+def map_has_set(s, x):
+    return x in s
+
+
+def map_get(m, k):
+    return m[k]
+
+
+def map_same(a, b):
+    return a == b
+
+
+def map_is_update(new, old, key, val):
+    d = dict(old)
+    d[key] = val
+    return new == d
+
+
+def set_is_add(new, old, x):
+    return new == set(old) | {x}
+
+
+def ufn(name, sort, *args):
+    raise NotImplementedError("uninterpreted function: symbolic tier only")
 
 
 def ClassOf(qual):
@@ -257,6 +301,16 @@ def generate(sh, rng, field_types=None):
         return generate(rng.choice(sh.a), rng)
     if k == "obj":
         return types.SimpleNamespace(**{f: generate(s, rng) for f, s in sh.k.items()})
+    if k == "instance":
+        cls = load_class(sh.a[0])
+        o = cls.__new__(cls)
+        for f, s_ in sh.k.items():
+            setattr(o, f, generate(s_, rng))
+        return o
+    if k == "map":
+        return {generate(sh.a[0], rng): generate(sh.a[1], rng) for _ in range(rng.randint(0, 3))}
+    if k == "pset":
+        return {generate(sh.a[0], rng) for _ in range(rng.randint(0, 3))}
     if k == "seq":
         n = rng.randint(0, sh.k.get("max_len", 5))
         items = [generate(sh.a[0], rng) for _ in range(n)]
